@@ -2,7 +2,6 @@ package myinterp
 
 import "golang.org/x/tools/go/ssa"
 
-
 // ---- deterministic cooperative fibers (spike) ----
 // Exactly one fiber runs at a time (baton). Blocking operations spin with yield().
 // Scheduling is FIFO round-robin => deterministic. Marked yield points (symYield)
@@ -153,6 +152,9 @@ func (s *sched) pickGroup(include *fgroup) *fiber {
 		}
 	}
 	g := cands[d]
+	// the complete schedule (who runs after every scheduling point, forced or
+	// chosen) is what the native replay follows
+	X.schedFull = append(X.schedFull, g.id)
 	if g == include {
 		return nil // continue current
 	}
@@ -347,7 +349,6 @@ func init() {
 // LockHook, when set, observes Lock/Unlock (C19 lock discipline).
 var LockHook func(fr *frame, m *value, acquire bool)
 
-
 // ---- lock-discipline monitor (C19) ----
 // GuardedGlobals maps a package-level variable to the mutex variable that must
 // be held while it is accessed.  Accesses by spawned clients are checked and,
@@ -402,7 +403,6 @@ func init() {
 		}
 	}
 }
-
 
 // blockGroupOn suspends the running client group until mutex p, held by a
 // fiber of another group, is released: another runnable group continues.  If
